@@ -229,4 +229,22 @@ theorem oracleN_sound {T : Tree K B V} {k : K} {n : Nat} {b : B} {e : Entry V}
       | none => simp only [hw] at h; exact .up hf hw (ih h)
 
 end Chains
+
+section Runs
+variable {K B V : Type} [DecidableEq K] [DecidableEq B]
+
+theorem Reader.run_succ (n : Nat) (sc : SC K B V) (r : Reader K B V) (h : ∀ v, r.pc ≠ .done v) :
+    Reader.run (n + 1) sc r = Reader.run n (r.stepSC sc) { r with pc := r.stepPc sc } := by
+  conv => lhs; unfold Reader.run
+  split
+  · rename_i v hv; exact absurd hv (h v)
+  · rfl
+
+theorem Reader.run_of_done (n : Nat) (sc : SC K B V) (r : Reader K B V) {v : Option V} (h : r.pc = .done v) :
+    Reader.run n sc r = (sc, r) := by
+  cases n with
+  | zero => rfl
+  | succ n => unfold Reader.run; rw [h]
+
+end Runs
 end Verif.SC
